@@ -143,6 +143,11 @@ func (d *Document) nextLexeme() (lex lexeme.LexEvent, err error) {
 	return lex, nil
 }
 
+// Rewind rewinds document to the beginning.
+func (d *Document) Rewind() {
+	d.rewind()
+}
+
 // rewind rewinds document to the beginning.
 func (d *Document) rewind() {
 	d.scanner = newScanner(d.file)
